@@ -1,3 +1,4 @@
+CONSTANT NTok = 4
 INIT Init
 NEXT Next
 INVARIANT Emit
